@@ -16,24 +16,52 @@ TRUST = ("Lean 4.33 kernel; axioms at most propext/Classical.choice/Quot.sound (
          "and additionally compared bit-for-bit with the real functions; the problem classes / solver loop are "
          "hand-modelled and tied by the correspondence (differential, generator-bounded); ")
 MANIFEST = dict(
-  text=("Theorems (Props/C08.lean) over Rat, for all sizes, symmetric matrices and boxes: the state invariant of the model of "
+  text=("Theorems (Props/C08.lean) over Rat, for all sizes, symmetric matrices and boxes. (1) State invariant of the model of "
         "SvmProblem/BoxConstrainedProblem + BoxBasedShrinkingStrategy -- gradient = lin - K*alpha on the active variables, edge "
         "gradient = lin - K*alpha restricted to variables at a bound, box, bound flags = coefficients at bounds, permutation "
-        "injective and in range, shrunk variables at a bound -- holds for the constructed problem (init_inv) and is preserved by "
-        "EVERY finite sequence of coordinate flips, shrink(eps) (including its internal unshrink and back-to-front loop) and "
-        "unshrink (reachable_inv_partial, by induction over the op list); after unshrink the gradient of ALL variables is "
-        "lin - K*alpha (grad_all_after_unshrink). For the T0-generated kernels (regenerated from AnalyticProblems.h on every run): "
-        "solveQuadraticEdge and solveQuadratic2DBox return points of the box (all inputs), the 1-D step has gain >= 0 outside the "
-        "documented curvature guard 0<Q<1e-12 (edge_gain_nonneg_partial + witness inside). "
+        "injective and in range, diagonal = K under the permutation, shrunk variables at a bound -- holds for the constructed "
+        "problem (init_inv) and is preserved by EVERY finite sequence of SMO steps of both problem kinds (updateSMO_inv_svm: "
+        "clipped step with the max(denominator,1e-12) guard + gradient update + updateGradientEdge; updateSMO_inv_box: the "
+        "T0-generated solveQuadraticEdge/solveQuadratic2DBox, i=j included), coordinate flips, shrink(eps) (with its internal "
+        "unshrink and back-to-front loop) and unshrink (reachable_inv, induction over the op list); after unshrink the gradient "
+        "of ALL variables is lin - K*alpha (grad_all_after_unshrink). Admissibility of an SMO step = the C++ SIZE_CHECKs "
+        "(i,j < active) plus, for the equality-constrained kind, the orientation g_i >= g_j that every selection criterion "
+        "returns (smo_svm_orientation_witness: without it the modelled step leaves the box). (2) sum_inv: the sum of the "
+        "coefficients of the equality-constrained problem is the same after every admissible history. (3) Objective: "
+        "smo_step_gain -- the clipped step changes lin.alpha - 1/2 alpha^T K alpha by exactly mu*(g_i-g_j) - 1/2 mu^2 "
+        "(K_ii+K_jj-2K_ij) >= 1/2 mu (g_i-g_j) >= 0 with 0 <= mu <= (g_i-g_j)/max(kappa,1e-12); the guard needs no hypothesis "
+        "and not even kappa >= 0 is needed (smo_step_gain_pos: strict gain for a strictly violating pair with room to move); "
+        "box2d_gain_nonneg -- the regenerated 2-D box sub-solver never loses objective for any box/start point when Q_ii >= 0 "
+        "(witness for negative definite Q; box2d_F5_instance_repaired); box_step_gain_two / box_step_gain_one_partial for the "
+        "solver steps; objective_monotone_svm (every history of the equality-constrained solver, any symmetric K) and "
+        "objective_monotone_partial (both kinds, diagonal entries 0 or >= 1e-12, i.e. outside the curvature guard of the 1-D "
+        "sub-solver, with edge_gain_negative_witness / box_step_gain_one_negative_witness inside it). solveQuadraticEdge and "
+        "solveQuadratic2DBox return points of the box (all inputs). (4) shrink_sound: shrink(eps) is the back-to-front loop started "
+        "from the state after its optional unshrink with bounds valid for all active variables; at EVERY removal in that loop the "
+        "invariant holds, the bounds are still valid for the remaining active variables, and the removed variable cannot take "
+        "part in an improving step: for the equality-constrained kind every feasible sum-preserving two-variable move involving "
+        "it (any active partner, curvature >= 0) strictly decreases the dual objective (exact, second order); for the box kind "
+        "every feasible move of it has strictly negative first-order effect and moving it alone strictly decreases the objective "
+        "(K_aa >= 0). (5) select_valid: whenever a selection criterion (MVP / LibSVM second order / maximum gain) reports a positive "
+        "violation the working set it returns is admissible for updateSMO (indices active; g_i >= g_j for MVP/LibSVM; MVP needs "
+        "the gradients inside the sentinel range [-1e100,1e100]). (6) The solver's own runs: solveIter_inv_box / solve_inv_box -- "
+        "for the box-constrained problem with maximum-gain selection and eps > 0 EVERY run of the model of QpSolver::solve (any "
+        "iteration limit, the re-selection inside the stopping branch included) ends in a state satisfying the invariant, with no "
+        "admissibility hypothesis left; solveIter_inv_svm / solve_inv_svm_partial -- the same for the equality-constrained "
+        "problem with LibSVM second-order selection as long as the gradients of the un-shrunk state stay strictly inside the "
+        "sentinel range (-1e100,1e100) at the start of every pass (selectLibSVM_sentinel_witness outside). "
         "Tie: the Float instance of the same definitions is compared bit-for-bit, the Rat instance exactly on FE_INEXACT-free "
         "prefixes, with the real classes driven through QpSolver::solve (MVP / LibSVM / maximum-gain selection) and through "
         "adversarial op sequences (double/float entries, CachedMatrix with minimal and larger caches) under ASan/UBSan; an "
         "independent oracle re-derives lin - K*alpha and checks every clause of the property (incl. objective monotonicity, sum "
         "preservation and soundness of shrinking) after every operation."),
-  note=TRUST + "NOT yet proved, covered by the exact/bit-for-bit correspondence and the oracle only: preservation of the invariant by the "
-       "SMO steps themselves (updateSMO of both problem kinds, hence the name reachable_inv_partial), sum preservation, "
-       "smo_step_gain / box2d_gain_nonneg (objective monotonicity), shrink_sound; the theorems on the 2-D box solver hold for the "
-       "tree with the proposed F5 patch (the generated definition changes with the source). "
+  note=TRUST + "NOT proved, covered by the exact/bit-for-bit correspondence and the oracle only: solver runs with the MVP selection "
+       "criterion (select_valid covers its direct selections, not its re-selection), runs of the equality-constrained solver "
+       "whose gradients leave the sentinel range (-1e100,1e100); for the box kind a JOINT "
+       "two-variable move involving a shrunk variable is only covered to first order; objective monotonicity of the 1-D "
+       "box step inside the guard region 0 < K_ii < 1e-12 is false for the code as it is (documented guard; witness theorems). "
+       "The proofs about the 2-D box solver are about the definition regenerated from the current source (they fail, and the "
+       "check reports a broken obligation, if the function changes shape). "
        "Rounding: theorems are about exact arithmetic. HMG working-set selection, deactivateVariable/scaleBoxConstraints/setLinear are not modelled; "
        "termination is not claimed.",
   technique="Lean 4 invariant proof by induction over operation sequences + T0 translation of the analytic kernels + "
